@@ -40,7 +40,7 @@ PROPS = {
     "C05": P(["lifecycle", "store", "provider", "waitpay", "rpc"],
              "Proof (Verus): pay requires !live(w) && !pay_running; a Succeeded record is never followed by add_payment_attempt/pay; add_payment_attempt never overwrites a Succeeded record; the Free write of mark_failed is generation guarded (Released-phase rely).",
              LIFE_NOTE, assumptions=A_WORLD),
-    "C06": P(["lifecycle", "fee", "paystate", "tlv_dec", "handle", "handle_slices", "store", "provider", "waitpay", "height", "tlv_enc", "tlv_get", "hooks", "dispatch"],
+    "C06": P(["lifecycle", "fee", "paystate", "tlv_dec", "handle", "handle_slices", "store", "provider", "waitpay", "height", "tlv_enc", "tlv_get", "hooks", "dispatch", "driver", "driver_run"],
              "Proof of the safety half (Verus): every normal return of payment_lifecycle has answered exactly once (resolve requires not yet released, lifecycle ensures released); no reachable panic in the functions under contract (unwrap/expect/todo!/overflow/index are obligations). Known finding F-C06-a (todo! reachable). Liveness clauses are not applicable to this technique (level_note).",
              LIFE_NOTE + " NOT APPLICABLE clauses: 'eventually', 'no later than one MPP timeout', deadlock freedom (liveness / scheduler fairness).",
              assumptions=A_WORLD),
@@ -51,7 +51,7 @@ PROPS = {
     "C08": P(["lifecycle", "store", "provider", "waitpay", "rpc"],
              "Proof (Verus): durable invariant inv(w) (live or pay running => record Pending|Succeeded; Succeeded holds preimage_of(hash)) is preserved by every atomic step of payment_lifecycle: pay requires a durable Pending; mark_failed requires (generation still matches => nothing live); mark_succeeded requires the preimage of a completed part; rely steps preserve inv (lemma_rely_preserves_inv). Every prefix of every execution therefore satisfies inv.",
              LIFE_NOTE, assumptions=A_WORLD, not_covered=["durability of CLN's datastore itself"]),
-    "C09": P(["lifecycle", "store", "rpc"],
+    "C09": P(["lifecycle", "store", "rpc", "waitpay"],
              "Proof (Verus) on the lifecycle side: started from any durable image, a Succeeded record is replayed; recovery writes are required to succeed absent faults by the store interface contract.",
              LIFE_NOTE, assumptions=A_WORLD, not_covered=["'eventually retried' is the sender's behaviour"]),
     "C11": P(["lifecycle", "paystate", "config"],
